@@ -358,6 +358,16 @@ static void put_blob (const char *tag, const char *b, size_t len) {
   printf ("\n");
 }
 
+/* module->last_temp_item_num of every module of ctx: not part of the text, but the loader names the
+   items it makes for string and floating immediates after it */
+static void put_last_temps (const char *tag, MIR_context_t ctx) {
+  printf ("%s", tag);
+  for (MIR_module_t m = DLIST_HEAD (MIR_module_t, *MIR_get_module_list (ctx)); m != NULL;
+       m = DLIST_NEXT (MIR_module_t, m))
+    printf (" %lu", (unsigned long) m->last_temp_item_num);
+  printf ("\n");
+}
+
 /* scan `text` in a fresh context; on success *out is the re-written text. 0 = ok */
 static int scan_and_output (const char *text, char **out, size_t *outlen, MIR_context_t *ctxp) {
   MIR_context_t ctx = MIR_init ();
@@ -436,28 +446,42 @@ static void do_build_case (char **lines, int nlines) {
   }
   printf ("scan1 ok\n");
   put_blob ("text2", t2, l2);
+  put_last_temps ("lasttemp", c2);
   fflush (stdout);
   if (scan_and_output (t2, &t3, &l3, &c3)) {
     printf ("scan2 err %s %s\n", err_name (err_type), err_msg);
   } else {
     printf ("scan2 ok\n");
     put_blob ("text3", t3, l3);
+    put_last_temps ("lasttemp3", c3);
   }
   fflush (stdout);
   if (nruns > 0) {
-    int p1 = prepare_run (c1), p2 = 0;
-    char e1[200] = "";
-    if (p1) snprintf (e1, sizeof (e1), "%s", err_msg);
-    p2 = prepare_run (c2);
-    if (p1 || p2) {
-      printf ("link %s | %s\n", p1 ? e1 : "ok", p2 ? err_msg : "ok");
-    } else {
-      for (int r = 0; r < nruns; r++) {
-        char o1[300], o2[300];
-        run_one (c1, &runs[r], o1, sizeof (o1));
-        run_one (c2, &runs[r], o2, sizeof (o2));
-        printf ("run %s %s | %s\n", runs[r].fname, o1, o2);
+    /* load, link and run all three contexts: the one built through the API, the one read from
+       text1 and the one read from text2.  Loading is where module->last_temp_item_num matters. */
+    MIR_context_t cs[3] = {c1, c2, c3};
+    int p[3] = {0, 0, 0}, bad = 0;
+    char e[3][200];
+    for (int k = 0; k < 3; k++) {
+      snprintf (e[k], sizeof (e[k]), "ok");
+      if (cs[k] == NULL || (k == 2 && t3 == NULL)) {
+        p[k] = 1;
+        snprintf (e[k], sizeof (e[k]), "absent");
+      } else if ((p[k] = prepare_run (cs[k])) != 0) {
+        snprintf (e[k], sizeof (e[k]), "%s", err_msg);
       }
+      bad |= p[k];
+    }
+    if (bad) printf ("link %s | %s | %s\n", e[0], e[1], e[2]);
+    for (int r = 0; r < nruns; r++) {
+      char o[3][300];
+      for (int k = 0; k < 3; k++) {
+        if (p[k])
+          snprintf (o[k], sizeof (o[k]), "nolink");
+        else
+          run_one (cs[k], &runs[r], o[k], sizeof (o[k]));
+      }
+      printf ("run %s %s | %s | %s\n", runs[r].fname, o[0], o[1], o[2]);
     }
   }
 }
@@ -471,6 +495,7 @@ static void do_scan_case (const char *text) {
     return;
   }
   put_blob ("ok", t2, l2);
+  put_last_temps ("lasttemp", c);
 }
 
 /* run `fn` in a child; report abnormal ends */
